@@ -1,7 +1,8 @@
 /-
   C02 — Tensor and fourth-order tensor algebra matches index notation.
 
-  Entry module of the property: imports the per-family property modules
+  Entry module of the property. The property theorems are in the per-family modules (all of them are
+  re-checked by `bin/check C02`, see `PROPS` in checks/C02.py)
 
     PropsT    tensor<N>: products, transpose, trace, det, invert, determinant derivative, contraction,
               change_basis, syme / unsyme / mixed sums, Cauchy-Green / Green-Lagrange tensors,
@@ -11,23 +12,15 @@
     PropsN1                                the same in 1D
     PropsPF   push_forward / pull_back of st2tost2 (1D, 2D, 3D)
     PropsCB   change_basis of the fourth-order tensors (1D, 2D, 3D)
+    PropsConv st2tost2::convert(t2tost2)
 
-  and states the projector identities on the traced constants themselves (`matOf` reads a row-major list
+  This module states the projector identities on the traced constants themselves (`matOf` reads a row-major list
   as a stored matrix): `J + K = Id`, `J : J = J`, `K : K = K`, `J : K = 0`, `M = 3/2 K`, through the traced
   product `st2tost2 * st2tost2`.
 -/
-import TfelVerif.C02.PropsT
-import TfelVerif.C02.PropsN1
-import TfelVerif.C02.Props2ST
-import TfelVerif.C02.Props2TT
-import TfelVerif.C02.Props2TS
-import TfelVerif.C02.Props2S2T
-import TfelVerif.C02.Props3ST
-import TfelVerif.C02.Props3TT
-import TfelVerif.C02.Props3TS
-import TfelVerif.C02.Props3S2T
-import TfelVerif.C02.PropsPF
-import TfelVerif.C02.PropsCB
+import TfelVerif.C02.Lemmas
+import TfelVerif.C02.Gen3ST
+import TfelVerif.C02.Gen3TT
 
 namespace TfelVerif.C02.Props
 open TfelVerif TfelVerif.Mandel TfelVerif.C02
